@@ -433,7 +433,11 @@ def directCandidates (st : St) (op : List String) (ret : String) (raw : AList Ca
       if !isErr then [(mk (.ok ()), if known then "child-known" else "child-unknown")]
       else if !known && p != "ta" then [([], "child-unknown")]
       else [(mk (.error lbl), "child-refused"), (mk (.error obsLbl), "child-refused-other-label")] ++
-           (if mode != "list" && mode != "req1" then [(mk (.ok ()), "child-last-request-ok")] else [])
+           -- several requests in one synchronisation: the parent's entry shows the last of them, an earlier one
+           -- may have succeeded; the observed entry is taken as input
+           (if mode != "list" && mode != "req1" then
+             [(mk (.ok ()), "child-last-request-ok"),
+              ((oc.map fun o => inferChild m p ca o).getD [], "child-several-requests")] else [])
     some (parentSide.flatMap fun (a, ta) => childSide.map fun (b, tb) => (a ++ b, s!"{ta}/{tb}"))
   | ["reposync", ca] =>
     if !(truthHasCa st.prev ca) then some [([], "no-such-ca")] else
@@ -462,7 +466,8 @@ def directCandidates (st : St) (op : List String) (ret : String) (raw : AList Ca
             ([.repoList ca uri (.error lbl) t], "list-refused")]
     | _ => some [([], "premature")]
   | ["rfc6492", p, c, _, agent] =>
-    if !(truthHasCa st.prev p) then some [([], "no-such-parent")] else
+    -- `CaManager::rfc6492` refuses remote requests to the trust anchor and to unknown CAs outright
+    if !(truthHasCa st.prev p) || p == "ta" then some [([], "no-such-parent")] else
     let agentO := if agent == "-" then none else some agent
     let tc := (((obsChild raw p c).bind (·.lastExchange)).map (·.time)).getD 0
     let (known, sigOk) := match truthChild st.prev p c with
